@@ -191,6 +191,11 @@ func c18Orders(cs *core.Case) (ran bool, sym, det string) {
 			if hasK(cs.Q) && len(items) == len(base) {
 				continue
 			}
+			// which of several tied series a topk keeps differs from run to run (finding
+			// F12, reported by C11): what is matched against it above differs with it
+			if hasK(cs.Q) && kOperandHasTie(cs, st) {
+				continue
+			}
 			return true, "call-order:stream", fmt.Sprintf("call order %q yields a different (T, series, value) stream than requesting the series first (%d vs %d samples)", order, len(items), len(base))
 		}
 	}
